@@ -302,3 +302,32 @@ pub fn gen_fasta(seed: u64, n: usize, maxlen: usize, path: &str, clean: bool) {
     };
     write_fasta(path, &seqs);
 }
+
+/// trace bits <fasta> <size> <kmax>: bit patterns of the Rust core's results on the records of a FASTA file (sequence bytes
+/// are decoded as latin-1 and re-encoded as UTF-8, which is what the Python driver hands to the binding): whole-sequence CGR
+/// and oligo vectors before rounding. FNV over the little-endian f64 bytes would do; sha256 is not available here, so the
+/// raw bit patterns themselves are printed (hex) and hashed by the check script.
+pub fn bits(fasta: &str, size: u64, kmax: usize) {
+    let seqs: Vec<Vec<u8>> = read_simple_fasta(fasta)
+        .iter()
+        .map(|s| s.iter().map(|&b| b as char).collect::<String>().into_bytes())
+        .collect();
+    let c = CgrComputer::new("x.fa".into(), "x.out".into(), size as usize);
+    let hex = |v: &[f64]| -> String { v.iter().map(|x| format!("{:016x}", x.to_bits())).collect::<Vec<_>>().join("") };
+    for (i, s) in seqs.iter().enumerate() {
+        let d = match c.verif_vectorise_one(s) {
+            Ok(p) => hex(&p.iter().flat_map(|q| [q.0, q.1]).collect::<Vec<f64>>()),
+            Err(_) => "error".to_string(),
+        };
+        println!("{}", json!({"ev":"bits","what":"cgr","i":i,"size":size,"bits":d}));
+    }
+    for k in 1..=kmax {
+        for norm in [false, true] {
+            let mut oc = composition::oligo::OligoComputer::new("x.fa".into(), "x.out".into(), k);
+            oc.set_norm(norm);
+            for (i, s) in seqs.iter().enumerate() {
+                println!("{}", json!({"ev":"bits","what":"oligo","k":k,"norm": if norm {1} else {0},"i":i,"bits":hex(&oc.verif_vectorise_one(s))}));
+            }
+        }
+    }
+}
